@@ -292,7 +292,7 @@ theorem gc_outer_body (fuel : Nat) (rev : Nat → Nat) (priv0 : Loc → Option V
       obtain ⟨o1, rfl, ls1, hl1, hfin⟩ := gc_inner_loop fuel rev priv0 B N gc rp hrev hN hrp _ _ _ _ hE
         (show GcI rev priv0 B N gc rp _ rest
             (mk { x with prev := x.gbkt, iter := w, pc := gcPc rev { x with prev := x.gbkt, iter := w } rp }) from by
-          simp [GcI, gcRel_iff, mk, gcPc, *])
+          exact ⟨by simp [gcRel_iff, mk, *], rfl, by simp [mk, gcPc], hO1⟩)
       have hlr0 : ∀ evs, lr rev { x := x, pend := .none, out := out } (Event.ld ((Loc.obj B).field "next") (encW w) 1 :: evs) =
           lr rev (mk { x with prev := x.gbkt, iter := w, pc := gcPc rev { x with prev := x.gbkt, iter := w } rp }) evs := by
         intro evs; simp [lr, lrun, absEv, hgb ▸ hstep]
